@@ -40,7 +40,7 @@ def one(d):
         shutil.rmtree(t, ignore_errors=True)
 
 
-dirs = sorted(d for d in os.listdir(root) if os.path.exists(os.path.join(root, d, 'patch.diff')) and (not only or any(d.startswith(o) for o in only)))
+dirs = sorted(d for d in os.listdir(root) if os.path.exists(os.path.join(root, d, 'patch.diff')) and (not only or any(d.startswith(o) or (o.startswith('-') and o in d) for o in only)))
 with cf.ThreadPoolExecutor(max_workers=16) as ex:
     res = list(ex.map(one, dirs))
 out = {}
